@@ -188,8 +188,23 @@ pub fn mamba_to_python(
 
     #[cfg(mamba_verif)]
     verif_hooks::emit(verif_hooks::Event::StageBegin { stage: "context", files: asts.len() });
-    let ctx = Context::try_from(asts.as_ref())
-        .map_err(|errs| errs.iter().map(|e| format!("{e}")).collect::<Vec<String>>())?;
+    let ctx = Context::try_from(asts.as_ref()).map_err(|errs| {
+        // errors which a file also gives on its own belong to that file
+        let per_file: Vec<TypeErr> = asts
+            .iter()
+            .zip(&source)
+            .flat_map(|(ast, (src, path))| {
+                Context::try_from(std::slice::from_ref(ast))
+                    .err()
+                    .unwrap_or_default()
+                    .into_iter()
+                    .map(|err| err.with_source(&Some(src.clone()), &path.clone()))
+                    .collect::<Vec<TypeErr>>()
+            })
+            .collect();
+        let errs = if per_file.is_empty() { errs } else { per_file };
+        errs.iter().map(|e| format!("{e}")).collect::<Vec<String>>()
+    })?;
     #[cfg(mamba_verif)]
     verif_hooks::emit(verif_hooks::Event::StageEnd { stage: "context", n_ok: asts.len(), n_err: 0 });
     #[cfg(mamba_verif)]
